@@ -137,6 +137,11 @@ def option_configs(name, ds, tier='quick'):
     elif name in ('RCA', 'RCA_Supervised'):
         for nc in [None] + list(range(1, d + 1)):
             out.append(('n_components=%s' % nc, {'n_components': nc}))
+        if name == 'RCA_Supervised':
+            # few but larger chunks: n_chunks < n_features <= n_chunks * (chunk_size - 1) (full rank only thanks to chunk_size)
+            nch = -(-d // 2)
+            if nch < d and sum(s_ // 3 for s_ in ds.sizes) >= nch:
+                out.append(('chunk_size=3,n_chunks=%d' % nch, {'chunk_size': 3, 'n_chunks': nch}))
     elif name == 'Covariance':
         out.append(('default', {}))
     elif name in ('SCML', 'SCML_Supervised'):
